@@ -242,4 +242,81 @@ CHECKS["C06"] = dict(
     thorough=dict(workers=16, cases=1200, maxsize=24, env={"VF_C06_CAP": "400"}),
 )
 
+EV_SOURCES = ["props/evloop.cc", "shim/shim.c", "pki/pki.cc", "stubs/ares_stub.c"]
+
+CHECKS["C04"] = dict(
+    harness="evloop", sources=EV_SOURCES, variant="asan", env={"VF_PROP": "C04"},
+    level="exploration", engine="rapidcheck scheduler over protocol-abiding agents + shim + resolver stub + ASan/UBSan",
+    technique="model-based property testing of the event-loop contract: generated schedules of agents that "
+              "follow the documented await/poll/act protocol, with a global 'nothing is owed while nobody is "
+              "readable' invariant (bounded-wait liveness) and watchdogged blocking calls",
+    level_text="Three agents (connecting socket, server socket, accepted socket) follow the manual literally - "
+               "xcm_await(condition), act only when xcm_fd is readable - under a generated scheduler, with "
+               "speculative calls, messages enqueued at generated points, kernel I/O split/refused by the shim, "
+               "connection set-up through literal addresses, a scripted resolver (answer at once / after 5-45 ms) "
+               "or a delayed TCP handshake, on all nine transport configurations; one side may close mid-traffic. "
+               "Whenever no descriptor is readable nothing may be owed (pending connection, undecided "
+               "establishment, unflushed frame with writable kernel socket, unread kernel bytes, flushed but "
+               "undelivered message, unseen close); otherwise a 2 s wait must wake somebody. A sixth of the "
+               "cases run a blocking-mode client thread (connect, send, receive, close) against event-loop "
+               "agents under a 10 s no-progress watchdog. Sampled; liveness is bounded-time.",
+    level_note="'Eventually' is read as 2 s (event loops) / 10 s (blocking calls) on loopback, where delivery "
+               "takes microseconds. The driver re-confirms a failing schedule three times.",
+    rule=("case = transport x buffers x connection set-up x traffic intents x up to 300 scheduler steps "
+          "(70% scheduled wake-ups, 10% speculative calls, 10% new messages, 8% shim scripts, 2% close). "
+          "Non-trivial = at least one message delivered AND (I/O split or refused by injection, or kernel "
+          "back-pressure, or resolution finished by a timer, or a wake-up had to come from the kernel/timer "
+          "while something was owed), or a blocking-client case."),
+    assumptions=["btls: data inside OpenSSL's write buffer is not observable; the flushed-but-undelivered rule is "
+                 "applied to btcp and the messaging transports only"],
+    quick=dict(workers=16, cases=100, maxsize=120),
+    thorough=dict(workers=16, cases=5000, maxsize=300),
+)
+
+CHECKS["C16"] = dict(
+    harness="evloop", sources=EV_SOURCES, variant="asan", env={"VF_PROP": "C16"},
+    level="exploration", engine="rapidcheck scheduler over protocol-abiding agents + probes at quiescence",
+    technique="property-based testing: generated event-loop histories driven to global quiescence, then "
+              "quiet probes (descriptor must not be readable) and converse probes (must be readable at once), "
+              "xcm_fd stability and POLLIN-only sampling",
+    level_text="Histories as in C04 (all transports, partial I/O, refusals) are run until both ends are flushed "
+               "and everything accepted is delivered; then on each end: condition 0 -> 5 samples over 16 ms "
+               "must not be readable and never signal POLLOUT/POLLPRI/ERR/HUP; RECEIVABLE after an EAGAIN "
+               "receive with an empty kernel queue -> not readable; SENDABLE on the idle connection -> readable "
+               "at once; a message sent and known (FIONREAD) to be in the receiver's kernel -> still quiet "
+               "under condition 0, readable at the first sample under RECEIVABLE; the server socket awaiting "
+               "ACCEPTABLE with an empty queue -> quiet. xcm_fd is compared with its first value at every "
+               "scheduler round. Sampled.",
+    level_note="Quiet is sampled over a 16 ms window; a descriptor that becomes readable later without cause "
+               "would be missed.",
+    rule=("case as C04 without mid-traffic close. Non-trivial = messages were delivered under split or refused "
+          "I/O (so bells / SSL pending state were exercised) before the probes ran."),
+    assumptions=["the control interface is disabled (XCM_CTL points nowhere), as the property's quiescence requires"],
+    quick=dict(workers=16, cases=60, maxsize=120),
+    thorough=dict(workers=16, cases=5000, maxsize=300),
+)
+
+CHECKS["C05"] = dict(
+    harness="evloop", sources=EV_SOURCES, variant="asan", env={"VF_PROP": "C05"},
+    level="exploration", engine="rapidcheck API sequences + shim sleep monitor + resolver stub",
+    technique="property-based testing with a monitor invariant: generated API call sequences on non-blocking "
+              "sockets held in generated phases; the interposition shim flags any sleeping primitive or "
+              "blocking-socket I/O issued inside a non-blocking XCM call",
+    level_text="Two thirds of the cases hold a non-blocking connection in one phase - ready, name resolution "
+               "pending (slow / silent resolver with dns.timeout), TCP handshake pending (40 in-progress "
+               "answers), TLS handshake against a server that never accepts, back-pressured (peer not "
+               "reading, small buffers), closed by peer - and issue up to 300 generated calls "
+               "(send, receive, finish, await, fd, attribute get/get_all/set, accept on the server, remote_addr, "
+               "close); the rest are the C04 event-loop histories. The shim reports poll/ppoll/select/"
+               "epoll_wait with a non-zero timeout, nanosleep/usleep/sleep, and connect/accept/send/recv on a "
+               "socket without O_NONBLOCK. Each call must also return within 1 s.",
+    level_note="Reads of regular files (credentials) are not sleeping primitives. xcm_server is not in the "
+               "property's list of calls.",
+    rule=("Non-trivial = the calls were issued in a phase other than 'ready'."),
+    assumptions=["a DNS-named xcm.local_addr is excluded from the main campaign (recorded finding) and exercised "
+                 "by a directed replay"],
+    quick=dict(workers=16, cases=120, maxsize=120),
+    thorough=dict(workers=16, cases=4000, maxsize=300),
+)
+
 NOT_APPLICABLE = []
